@@ -65,8 +65,9 @@ def residue(left: Any, right: Any) -> str | None:
     if nr == 'TransposeOperator' and right.operator is left:
         if nl == 'PackOperator':
             return 'pack'
-        if nl == 'IndexOperator' and left.unique_indices:
-            return 'index_transpose'
+        if nl == 'IndexOperator' and (left.unique_indices or all(
+                i is Ellipsis or isinstance(i, (int, slice)) or getattr(i, 'dtype', None) == bool for i in left.indices)):
+            return 'index_transpose'      # integers, slices, an ellipsis and masks never select an element twice
     # (vii) P.T @ P for a single indexed axis carrying a non-unique integer array
     if nl == 'TransposeOperator' and nr == 'IndexOperator' and left.operator is right and not right.unique_indices:
         idx = n_indexed_axes(right)
